@@ -621,6 +621,9 @@ def correspond(ctx):
     items, owner = [], []          # Coq items and (case index, which observation)
     for i, (k, o) in enumerate(zip(cases, out)):
         e = k['expr']
+        if o.get('skipped'):
+            c.count('skipped_after_timeouts')
+            continue
         for kk, vv in kinds(e).items():
             c.count('class:' + kk, vv)
         c.count('src:' + k['src'])
@@ -655,6 +658,8 @@ def correspond(ctx):
         owner.append((i, 'iter'))
         # two interleaved streams: each must equal the model's run of a single stream
         for w in (0, 1):
+            if o.get('ctor_error'):
+                break
             calls = sum(1 for x in k['sched'] if x == w)
             tw = canon_end(o['two'][w])
             if has_x(tw):
@@ -701,6 +706,8 @@ def correspond(ctx):
     for k, o in zip(sc, so):
         c.count('class:Pseed')
         c.evaluations += 1
+        if o.get('skipped'):
+            continue
         if o.get('iter') is None:
             c.failures.append(Failure('correspondence', 'seeded case did not run: %s' % o, replay={'expr': k['expr']}))
             continue
@@ -733,7 +740,7 @@ def oracle_disagrees(ctx, exprs, n=24):
     out = run_impl(ctx, cases)
     bad = []
     for e, o in zip(exprs, out):
-        if o.get('iter') is None:
+        if o.get('iter') is None or o.get('skipped'):
             continue
         im = canon_end(o['iter'])
         try:
